@@ -10,6 +10,7 @@ first (`loadNode`, trie.go:518-545), a superset of the loads of the real code.
   mode all|latest|gc       -> ok
   cfg <gcp> <p2p> <ssi> <mtb>  -> ok           (the node's GC configuration, MaxTraceableBlocks)
   mtb <v>                  -> mtb=<n>          (a committee transaction asked for MaxTraceableBlocks v)
+  mtbhf <v>                -> mtb=<n>          (GetMaxTraceableBlocks switched to v at a hardfork: accepted only as a lowering)
   blk <idx> <sub>...       -> r=<root> n=<records> dg=<digest> ch=<changes> | panic
   blkq <idx> <sub>...      -> r=<root>
   drop <idx> <sub>...      -> r=<root>
@@ -140,6 +141,13 @@ def step (d : DSt) (ws : List String) : DSt × String :=
       let m' := match NeoModel.Generated.GoFuncs.policySetMaxTraceableBlocks (n : Int) (d.c.mtb : Int) 1 true 0 with
         | some (_ :: v :: _) => v.toNat
         | _ => d.c.mtb
+      ({ d with c := { d.c with mtb := m' } }, s!"mtb={m'}")
+    | none => (d, "bad-op")
+  | ["mtbhf", v] =>
+    -- GetMaxTraceableBlocks changed at a hardfork (config value -> Policy value): a lowering for the model
+    match v.toNat? with
+    | some n =>
+      let m' := newMtbOf d.c.mtb (some n)
       ({ d with c := { d.c with mtb := m' } }, s!"mtb={m'}")
     | none => (d, "bad-op")
   | "blk" :: idx :: subs =>
